@@ -285,17 +285,17 @@ NA = {}
 EXTRA_TEXT = {'C01': ' Edges whose template reads a second variable given as a path (w*(source - x_ref)) are part of Denote (RefProgs); class RefGroupMismatch (D61) is kept out of the vectorised runs and pinned.',
               'C02': ' A function compiled earlier must keep its precision when another model is compiled for the same backend in the other precision.',
               'C04': ' Populations include source maps with a duplicate and a gap (index-based projection) and templated edges with path-valued inputs (D61 / D62 classes excluded, pinned / signature).',
-              'C07': ' Override values include 0 and all/ per-node arrays through node_values; a circuit derived with update_template that shares privately copied node templates with its base is explored to depth 4-5 (alias variable, deviation UpdateVarInPlaceWhenPrivate).',
-              'C09': ' An undelayed global (scalar-weight) Connectivity next to a delayed one is part of the population cases.',
+              'C07': ' Override values include 0 and all/ per-node arrays through node_values; a circuit derived with update_template that shares privately copied node templates with its base is explored to depth 4-5 (alias variable, deviations UpdateVarInPlaceWhenPrivate, DerivedSharesEdgeDicts; derivation with and without an additional edge).',
+              'C09': ' An undelayed global (scalar-weight) Connectivity next to a delayed one, three delayed edge groups leaving one source variable and Connectivity(spread=0.0) are part of the cases.',
               'C10': ' (e) adaptive solver with a delayed edge (the edge becomes a past() term): exact polynomial chain, float- and integer-typed delays, three time scales.',
               'C11': ' Plain discrete-delay kernels are part of Gamma.tla (class D59 - one source variable feeding a distributed and a discrete delay - excluded, three pinned reproducers); a coarse time scale (dt = 16) exercises the chain-grouping keys; dde_approx also in Connectivity form.',
               'C12': ' A quarter of the models is compiled after the same equations were compiled in the same process with another state layout.',
-              'C14': ' Derive.tla (BaseUntouched) is replayed for every edit dictionary through update_template and YAML base:; the universe contains a node overriding an operator another node uses as declared (explicit dict-form variable).',
-              'C15': " Derive.tla: derived equations = token-wise edit of the parent's equations (replace, remove, append, prepend) plus the added equations verbatim, Python and YAML forms; Replace.tla uses the full delimiter set of the equation language; the round trip also re-uses a path that held another model.", 'C16': ' Also: two scalar (global) weights converging on one variable, two coupling templates that differ in a constant only.',
+              'C14': ' Derive.tla (BaseUntouched) is replayed for every edit dictionary through update_template and YAML base:; the universe contains a node overriding an operator another node uses as declared (explicit dict-form variable) and a circuit derived from an edge-less base with a new edge (Derive2Copies).',
+              'C15': " Derive.tla: derived equations = token-wise edit of the parent's equations (replace, remove, append, prepend) plus the added equations verbatim, Python and YAML forms; Replace.tla uses the full delimiter set of the equation language; the round trip also re-uses a path that held another model.", 'C16': ' Also: two scalar (global) weights converging on one variable, two coupling templates that differ in a constant only, a source variable that is not the declared output of its operator, a population circuit compiled twice.',
               'C17': ' Also sweeps over two attributes (weight and delay) of one edge.',
               'C18': ' STPNT must load the declared initial state into the layout FUNC reads (distinct initial values, reversed edge direction). The slot loop is additionally verified for every parameter count: Apalache discharges the inductive invariant of spec/apalache/AutoLoopInd.tla (initiation, consecution, IndInv => Safe, monotonicity) and finds the error in the copy with the forgotten offset.',
               'C19': ' One variant places the times far from the origin (2^36 + k 2^-5).',
-              'C20': ' The request matrix includes the Population/Connectivity form and both orders of mixed delay kinds; malformed models include every reserved variable name and a variable declared only by a sibling operator (both orders).'}
+              'C20': ' The request matrix includes the Population/Connectivity form and both orders of mixed delay kinds; malformed models include every reserved variable name a variable declared only by a sibling operator (both orders), a misspelt variable addressed on a later member of a vectorised group and an edge template with two terminal operators of one output name.'}
 
 if __name__ == '__main__':
     main()
